@@ -510,13 +510,17 @@ def handle_refuted(contract, shape, values, st0, ob, oid, res, check, prop):
     # expected observation, from the contract's own clauses) stands in for the replay
     probe = getattr(contract, "probe", None)
     if probe is not None:
-        try:
-            failures = list(probe())
-        except Exception as e:      # noqa: BLE001
-            failures = [("probe", {}, f"probe raised {e!r}")]
-        for clause, inputs, detail in failures[:3]:
+        if getattr(contract, "_probe_cache", None) is None:
+            try:
+                contract._probe_cache = list(probe())
+            except Exception as e:      # noqa: BLE001  (a crashing probe finds nothing; never a verdict)
+                contract._probe_cache = []
+                check.note(f"concrete probe of {contract.key} raised {e!r}")
+        for item in contract._probe_cache[:3]:
+            clause, inputs, detail = item[:3]
+            rp = item[3] if len(item) > 3 else {"kind": "probe", "contract": contract.key}
             v = check.violation(oid, dict(function=contract.key, **inputs), f"{clause}: {detail}",
-                                replay={"kind": "probe", "contract": contract.key, "module": contract.__dict__.get("probe_module", "")}, found_input=True,
+                                replay=rp, found_input=True,
                                 verifier_output={"solver": res["solver"], "note": "failing case found by the contract's concrete probe seeded by the refutation"})
             if v == "violation":
                 check.add_obligation(Obligation(oid, contract.key, ob.kind, res["solver"], "refuted", round(res["seconds"], 3), "failing input found by the concrete probe"))
